@@ -145,7 +145,7 @@ theorem coversIdx_congr (ro ro' : Rollout) (wl : WL) (rel i : Int) (h : ro'.step
     progress, the reconcile that takes the new plan up leaves the rollout on, or about to move to, a step of the new plan
     that allows at least what the BatchRelease's partition had already authorised under the old plan (if the new plan has
     such a step).  What counts is the *partition* the Rollout wrote, not the batch the BatchRelease happens to have reached. -/
-theorem recalc_covers_released (w : World) (r : StepResult) (h : reconcile w = .val r) : recalcCovers w r = true := by
+theorem recalc_covers_released_core (w : World) (r : StepResult) (h : reconcileCore w = .val r) : recalcCovers w r = true := by
   unfold recalcCovers
   cases hw : w.wl with
   | none => rfl
@@ -172,7 +172,7 @@ theorem recalc_covers_released (w : World) (r : StepResult) (h : reconcile w = .
       dsimp only
       split
       · rename_i hex
-        obtain ⟨ns, s, hsame, hs, hcore, hreason, hrec⟩ := reconcile_inRolling w wl os hph hr hw hcons hos
+        obtain ⟨ns, s, hsame, hs, hcore, hreason, hrec⟩ := reconcile_inRolling_core w wl os hph hr hw hcons hos
         rw [hrec] at h
         split at h
         · cases h
@@ -192,5 +192,17 @@ theorem recalc_covers_released (w : World) (r : StepResult) (h : reconcile w = .
             rcases this with h1 | h1 <;> simp [h1]
       · rfl
   · rfl
+
+/-! ### the whole reconcile (body + cursor reset, see `RV.Props.Reconcile`, section Transfer) -/
+
+theorem recalcCovers_reset (w : World) (r : StepResult) : recalcCovers w (resetOnExit w r) = recalcCovers w r := by
+  unfold recalcCovers; reset_frame
+  cases w.wl <;> cases w.ro.sub <;> cases r.w.ro.sub <;> cases w.br <;> rfl
+
+/-- **C01, across edits of the plan (whole reconcile)** — for every world: when the plan was edited while a step is in
+    progress, the reconcile that takes the new plan up leaves the rollout on, or about to move to, a step of the new plan
+    that covers what the BatchRelease was authorised to release under the old one (see `recalc_covers_released_core`). -/
+theorem recalc_covers_released (w : World) (r : StepResult) (h : reconcile w = .val r) : recalcCovers w r = true :=
+  transfer recalcCovers recalcCovers_reset recalc_covers_released_core w r h
 
 end RV.Props.Recalc
